@@ -20,7 +20,7 @@ from vf.simloop import OWNER
 TOPIC = "t"
 GROUP = "g19"
 WORKLOADS = ["producer", "group_consumer", "simple_consumer"]
-CLUSTER_STATES = ["healthy", "healthy", "refuse", "blackhole", "failover", "restored"]
+CLUSTER_STATES = ["healthy", "healthy", "refuse", "blackhole", "failover", "restored", "refuse_listed", "blackhole_listed"]
 
 
 def gen_params(rng, idx, tier="quick", force=None):
@@ -226,12 +226,14 @@ def run_history(P):
                 victim = cl.leaders[(TOPIC, 0)]
             H["victim"] = victim
             b = cl.brokers[victim]
-            if st == "refuse":
+            if st in ("refuse", "refuse_listed"):
                 b.go_down()
                 net.connect_policy[(b.host, b.port)] = "refuse"
-            elif st == "blackhole":
+            elif st in ("blackhole", "blackhole_listed"):
                 b.go_down()
                 net.connect_policy[(b.host, b.port)] = "blackhole"
+            if st.endswith("_listed"):
+                b.listed_while_down = True      # metadata keeps naming it as leader / coordinator host
             elif st == "failover":
                 for p in range(P["n_parts"]):
                     cl.move_leader(TOPIC, p)
@@ -369,7 +371,7 @@ def judge(H):
     detail = {"class": cls, "stop": s, "bound": H.get("bound"), "victim": H.get("victim"),
               "cluster_changed_at": H.get("cluster_changed_at"), "leftovers": H.get("leftovers"), "after": H.get("after")}
     if s.get("t_ret") is None or s.get("hung"):
-        V.append((f"stop_never_returns:{P['workload']}:{'unreachable' if P['cluster'] in ('refuse', 'blackhole') else P['cluster']}"
+        V.append((f"stop_never_returns:{P['workload']}:{'unreachable' if P['cluster'] in ('refuse', 'blackhole') else ('unreachable_but_listed' if P['cluster'].endswith('_listed') else P['cluster'])}"
                   + (":idempotent" if P["workload"] == "producer" and P["idempotent"] else ""),
                   f"[{cls}] stop() issued at t={s.get('t_call')} (event {s.get('event')}) had not returned after 10 x bound "
                   f"({10 * H.get('bound', 0):.0f}s virtual)", detail))
